@@ -624,6 +624,11 @@ class Exec(HeapMixin, ExprMixin, CallMixin, StmtMixin):
     def call_contract(self, fi, c, args, kwargs, star=None):
         node = fi.node
         env = self.bind_params(node, args, dict(kwargs), fi.module, star=star)
+        va = node.args.vararg
+        if va is not None and isinstance(env.get(va.arg), VTuple) and ('*' + va.arg) in c.params:
+            vt = ty.parse(c.params['*' + va.arg])
+            if isinstance(vt, ty.TList):
+                env[va.arg] = self.new_list(vt, env[va.arg].items)
         fr = self.frame
         k = fr.call_ord if fr is not None else 0
         callee = fi.qualname
@@ -769,6 +774,10 @@ def _h_same_dict(eng, a, b):
                                       (z3.Select(sa, k) < z3.Select(sa, k2)) == (z3.Select(sb, k) < z3.Select(sb, k2))))))
 
 
+def _h_same(eng, a, b):
+    return VBool(eng.values_equal(a, b, identity=True))
+
+
 def _h_typeof(eng, x):
     return eng.type_of_value(x)
 
@@ -782,5 +791,5 @@ def _h_is_none(eng, x):
 
 
 SPEC_HELPERS = dict(implies=_h_implies, iff=_h_iff, index_of=_h_index_of, order_of=_h_order_of, key_at=_h_key_at,
-                    is_fresh=_h_is_fresh, same_elems=_h_same_elems, same_dict=_h_same_dict, typeof=_h_typeof,
+                    is_fresh=_h_is_fresh, same_elems=_h_same_elems, same_dict=_h_same_dict, typeof=_h_typeof, same=_h_same,
                     is_none=_h_is_none)
